@@ -57,6 +57,9 @@ func (e *Enc) assumeAllocated(st *bstate, v Val) {
 		e.assert(app("<=", v.T, alloc))
 	case *types.Slice:
 		e.assert(app("<=", app("sbase", v.T), alloc))
+	case *types.Interface:
+		e.W.declare("iref", "(declare-fun iref (Iface) Int)")
+		e.assert(app("<=", app("iref", v.T), alloc))
 	}
 }
 
@@ -223,6 +226,9 @@ func calledNames(x *CExpr) []string {
 }
 
 func (e *Enc) header() (string, []string) {
+	if e.opt("strassoc") {
+		e.W.strAssoc = true
+	}
 	ax, used := e.axiomsText()
 	specs := e.specDefs()
 	// axioms may have pulled in more spec functions
@@ -577,6 +583,9 @@ func entryClosedAxioms(w *World, c *Comp) []string {
 		f = func(v string) string { return "(<= " + v + " alloc@0)" }
 	case *types.Slice:
 		f = func(v string) string { return "(<= (sbase " + v + ") alloc@0)" }
+	case *types.Interface:
+		w.declare("iref", "(declare-fun iref (Iface) Int)")
+		f = func(v string) string { return "(<= (iref " + v + ") alloc@0)" }
 	default:
 		return nil
 	}
